@@ -156,6 +156,21 @@ PROPS["C03"] = dict(
     thorough=dict(shards=16, timeout=2400),
 )
 
+PROPS["C02"] = dict(
+    pkg="c02", level="exploration", design_ref="DESIGN.md section 3, C02",
+    technique="generated pointer graphs (sharing, self-loops, longer cycles through slices, maps, arrays and interfaces) with reference-counted clutter; independent reader resolves every back-reference; bisimulation + identity count against the library's decoder",
+    level_text=("A graph generator wires every pointer slot of 1-9 nodes to any node (or nil), interleaving items of every reference-counted kind. Oracle: encoding "
+                "terminates; the independent reader accepts the stream and its resolved graph is bisimilar to the original, so every back-reference points at the item "
+                "the encoder meant even when encoder and decoder share a numbering error; each distinct reachable object is defined exactly once; the library's decoder "
+                "returns a bisimilar graph with the same number of distinct nodes (aliasing preserved), into typed and interface{} destinations."),
+    level_note="Graph sizes are bounded (<= 9 nodes); cyclic values are only encoded in reference mode (non-termination in simple mode is inherent).",
+    rule=("rapid-drawn graphs over two node types with pointer, slice, map, array, *slice, *map and interface slots; 1 in 4 acyclic (DAG); clutter values of the enumerated "
+          "kinds in interface slots. Non-trivial = the stream contains at least one r tag; classes has-cycle / has-sharing / clutter=<kind> are recorded. Distinct by (destination, graph text)."),
+    assumptions=["node struct types are registered so that interface{} destinations rebuild them"],
+    quick=dict(shards=4, timeout=600),
+    thorough=dict(shards=16, timeout=2400),
+)
+
 # properties not claimed yet (kept current as checks land)
 _ALL = ["C%02d" % i for i in range(1, 21)]
 NOT_APPLICABLE = [dict(property_id=p, reason="check not built yet in this revision (planned in DESIGN.md section 3); not a limit of the technique")
